@@ -3,7 +3,7 @@ NOTES = ("Static analysis only (see DESIGN.md). Each claimed check decides struc
          "behavioural residue named in DESIGN.md section 5 under each property is not claimed. Genuine defects found "
          "and repaired are recorded in known_findings.json (state fixed). The thorough tier re-runs the same rules and "
          "then validates the checker itself on scratch copies: hand-written and 120 sub-agent breaking changes must fire "
-         "their rule, 120 sub-agent refactorings and 9 whole-package mechanical rewrites (reformat, rename locals, rename private parameters, reorder "
+         "their rule, 120 sub-agent refactorings and 10 whole-package mechanical rewrites (reformat, rename locals, rename private parameters and attributes, reorder "
          "methods, mirror comparisons / if-else, expand augmented assignments) must be silent; any miss is exit 2.")
 
 _TB = ("Trusted base: CPython's ast parser, the statement CFG builder in sa/cfg.py (feasibility-insensitive), mypy's "
